@@ -776,6 +776,31 @@ func runC18(c *Ctx) {
 		original := AuthCase{MaxFacts: mf, MaxIter: mi, Ctor: "for", Tokens: [][]Block{toks[target]}, Ops: append(append([]AuthOp{}, content...), panel...)}
 		resR, sxR := emitAuth(c, "restored", restored)
 		resO, sxO := emitAuth(c, "original", original)
+		// saving must leave the saved authorizer as it was: the original, saved once or twice
+		// and then used, answers like the original that was never saved
+		if r.Chance(1, 2) {
+			kept := original
+			kept.Ops = append(append([]AuthOp{}, content...), AuthOp{K: "savekeep"})
+			if r.Chance(1, 2) {
+				kept.Ops = append(kept.Ops, AuthOp{K: "addfact", Fact: Pred{Name: "fresh_after_save", Terms: []Term{S(fmt.Sprintf("late-symbol-%d", i))}}}, AuthOp{K: "savekeep"})
+				original2 := original
+				original2.Ops = append(append(append([]AuthOp{}, content...), AuthOp{K: "addfact", Fact: Pred{Name: "fresh_after_save", Terms: []Term{S(fmt.Sprintf("late-symbol-%d", i))}}}), panel...)
+				kept.Ops = append(kept.Ops, panel...)
+				resK, sxK := emitAuth(c, "saved-original", kept)
+				resO2, _ := emitAuth(c, "original", original2)
+				if resK != "environment-timeout" && resO2 != "environment-timeout" && resK != resO2 {
+					c.Violate("C18/saving-changes-original", "an authorizer that was saved behaves differently from one that was not: saved="+resK+" unsaved="+resO2,
+						map[string]interface{}{"verb": "AUTHSEQ", "case": sxK, "go": resK, "original_go": resO2})
+				}
+			} else {
+				kept.Ops = append(kept.Ops, panel...)
+				resK, sxK := emitAuth(c, "saved-original", kept)
+				if resK != "environment-timeout" && resO != "environment-timeout" && resK != resO {
+					c.Violate("C18/saving-changes-original", "an authorizer that was saved behaves differently from one that was not: saved="+resK+" unsaved="+resO,
+						map[string]interface{}{"verb": "AUTHSEQ", "case": sxK, "go": resK, "original_case": sxO, "original_go": resO})
+				}
+			}
+		}
 		if resR == "environment-timeout" || resO == "environment-timeout" {
 			continue
 		}
